@@ -97,6 +97,16 @@ MUTANTS = [
     m('C20', 'mst_measure_reports_sigma', (MST, "        measurements.append( (Q, y, sigma/wgt, proj) )", "        measurements.append( (Q, y, sigma, proj) )")),
     m('C20', 'best_noise_inverted', (MECH, "        if np.sqrt(2)*b < sigma:\n            return partial(self.laplace_noise, b)", "        if np.sqrt(2)*b > sigma:\n            return partial(self.laplace_noise, b)")),
     m('C20', 'gem_dict_keys_sorted', (MECH, "            keys = list(qualities.keys())\n            qualities = np.array([qualities[key] for key in keys])\n            sensitivities", "            keys = sorted(qualities.keys())\n            qualities = np.array([qualities[key] for key in qualities])\n            sensitivities")),
+    # ---- C04 ------------------------------------------------------------
+    m('C04', 'grad_noise_once', (INF, "                    loss += 0.5*(diff @ diff)\n                    grad = c*(Q.T @ diff)", "                    loss += 0.5*(diff @ diff)\n                    grad = (Q.T @ diff)")),
+    m('C04', 'l1_grad_uses_diff', (INF, "                    grad = c*(Q.T @ sign)", "                    grad = c*(Q.T @ diff)")),
+    m('C04', 'grouping_no_break', (INF, "                if set(proj) <= set(cl):\n                    self.groups[cl].append(m)\n                    break", "                if set(proj) <= set(cl):\n                    self.groups[cl].append(m)")),
+    m('C04', 'project_sorted_attrs', (INF, "                mu2 = mu.project(proj)", "                mu2 = mu.project(tuple(sorted(proj)))")),
+    m('C04', 'lipschitz_p_over_n', (INF, "                    eigs[cl] += eig * n / p / noise**2", "                    eigs[cl] += eig * p / n / noise**2")),
+    m('C04', 'lipschitz_noise_not_squared', (INF, "                    eigs[cl] += eig * n / p / noise**2", "                    eigs[cl] += eig * n / p / noise")),
+    m('C04', 'revert_F3_lipschitz_grouping', (INF, "            for cl in sorted(self.model.cliques, key=self.model.domain.size):\n                if set(proj) <= set(cl):\n                    n = self.domain.size(cl)", "            for cl in self.model.cliques:\n                if set(proj) <= set(cl):\n                    n = self.domain.size(cl)")),
+    m('C04', 'linop_not_transposed', (INF, "                    loss += 0.5*(diff @ diff)\n                    grad = c*(Q.T @ diff)", "                    loss += 0.5*(diff @ diff)\n                    grad = c*(Q.T @ diff) if not isinstance(Q, LinearOperator) else c*(Q.T @ np.abs(diff))")),
+    m('C04', 'str_proj_split', (INF, "            if type(proj) is not tuple:\n                proj = (proj,)", "            if type(proj) is not tuple:\n                proj = tuple(proj)")),
 ]
 
 
